@@ -188,6 +188,18 @@ func runC16(c *Ctx) {
 	pop := c.fn("stack-end", "lists.(*Stack).Pop")
 	speek := c.fn("stack-end", "lists.(*Stack).Peek")
 	if ps := c.paths("stack-end", push); ps != nil {
+		// what append does when there is room, spelled out: *s = (*s)[:len+1]; (*s)[len] = value
+		{
+			var rest []*Path
+			for _, p := range ps {
+				if !c16PushInPlace(p) {
+					rest = append(rest, p)
+				}
+			}
+			if len(rest) > 0 {
+				ps = rest
+			}
+		}
 		ok, why := len(ps) == 1, "more than one path"
 		if ok {
 			p := ps[0]
@@ -198,7 +210,7 @@ func runC16(c *Ctx) {
 					sts = append(sts, e)
 				} else if e.Kind == "store" && (e.Addr.Op == "iaddr" && e.Addr.Args[0].Op == "alloc") {
 					// building the variadic argument of append
-				} else if e.Kind == "call" && e.Name == "builtin.append" {
+				} else if e.Kind == "call" && (e.Name == "builtin.append" || e.Name == "builtin.len" || e.Name == "builtin.cap") {
 				} else {
 					ok, why = false, "unexpected effect "+e.String()
 				}
@@ -330,4 +342,59 @@ func runC16(c *Ctx) {
 		R.Decide(okTop, "stack-end", fi.Name, "top", c.pos(fi), "acts on index len-1 of the slice as it was on entry", why)
 		R.Decide(okEmpty, "empty-guard", fi.Name, "empty", c.pos(fi), "nil or empty -> (zero,false), nothing stored", whyE)
 	}
+}
+
+// c16PushInPlace: the path has established len(*s) < cap(*s), extends *s by one within its capacity and writes the
+// pushed value into the new last slot - nothing else.
+func c16PushInPlace(p *Path) bool {
+	if p.End != EndReturn {
+		return false
+	}
+	recv := &Term{Op: "param", N: 0}
+	var old *Term
+	room := false
+	for _, cd := range p.Conds {
+		pl, kind, isInt := cd.Rel().IntNorm()
+		if !isInt || kind != ">" {
+			continue
+		}
+		for _, at := range pl.Atoms {
+			if at.Op == "builtin" && at.Sym == "cap" && len(at.Args) == 1 && at.Args[0].Op == "load" && isParam(at.Args[0].Args[0], 0) {
+				ln := &Term{Op: "builtin", Sym: "len", Args: at.Args}
+				if pl.Equal(ToPoly(at).Add(ToPoly(ln), -1)) { // cap - len > 0
+					room, old = true, at.Args[0]
+				}
+			}
+		}
+	}
+	_ = recv
+	if !room {
+		return false
+	}
+	lenOld := ToPoly(&Term{Op: "builtin", Sym: "len", Args: []*Term{old}})
+	var ext *Term
+	wrote := 0
+	for i := range p.Events {
+		e := &p.Events[i]
+		switch {
+		case e.Kind == "call" && (e.Name == "builtin.len" || e.Name == "builtin.cap"):
+		case e.Kind == "store" && isParam(e.Addr, 0):
+			v := e.Val
+			if ext != nil || v.Op != "slice" || v.Args[0].Key() != old.Key() || !(v.Args[1].Op == "none" || v.Args[1].IsConst("0")) || v.Args[2].Op == "none" || !ToPoly(v.Args[2]).Equal(lenOld.Add(polyConst(1), 1)) {
+				return false
+			}
+			if len(v.Args) > 3 && v.Args[3].Op != "none" {
+				return false
+			}
+			ext = v
+		case e.Kind == "store" && e.Addr.Op == "iaddr":
+			if ext == nil || !(e.Addr.Args[0].Key() == ext.Key() || e.Addr.Args[0].Key() == old.Key()) || !ToPoly(e.Addr.Args[1]).Equal(lenOld) || !isParam(e.Val, 1) {
+				return false
+			}
+			wrote++
+		default:
+			return false
+		}
+	}
+	return ext != nil && wrote == 1
 }
